@@ -396,6 +396,7 @@ def symbol_at(addr):
 
 OVERFLOW_CLASSES = [
     # (class, marker: a function name occurring anywhere among the top frames)
+    ("optimize-expr-codegen-recursion", ("optimize::optimize_expr", "codegen::codegen")),
     ("include-recursion", "Preprocessor::recurse_dependencies"),
     ("macro-expansion-recursion", "Preprocessor::expand_macros"),
     ("evaluator-recursion", "compiler::evaluate::"),
@@ -421,7 +422,8 @@ def overflow_site(o):
     if not names:
         return "?"
     for cls, marker in OVERFLOW_CLASSES:
-        if any(marker in n for n in names):
+        markers = marker if isinstance(marker, tuple) else (marker,)
+        if all(any(m in n for n in names) for m in markers):
             return cls
     total = sum(names.values())
     cyc = sorted(n for n, c in names.items() if 5 * c >= total)
@@ -609,7 +611,7 @@ def _chunk(cmd, lines, timeout):
     return res + _chunk(cmd, lines[len(res):], timeout)
 
 
-def run_crash(lines, workdir, limit_ms, timeout):
+def run_crash(lines, workdir, limit_ms, timeout, retry=False):
     """-> (outputs, cost of each case in CPU microseconds)"""
     cmd = [lib.CVH, "crash", workdir, str(limit_ms)]
     n = len(lines)
@@ -622,6 +624,14 @@ def run_crash(lines, workdir, limit_ms, timeout):
         parts = list(ex.map(lambda c: _chunk(cmd, c, timeout), chunks))
     res = [o for part in parts for o in part]
     res += ["missing"] * (n - len(res))
+    # a case that hit the CPU limit is run again, alone, with six times the limit: what looks like a
+    # hang at 30 s is often a slow recursion about to overflow the stack (or just a busy machine); the
+    # second outcome is the one that is judged and that names the signature
+    slow = [i for i, o in enumerate(res) if o in ("abort rc=124", "timeout") and not retry]
+    if slow:
+        again, _ = run_crash([lines[i] for i in slow], workdir, limit_ms * 6, timeout * 6, retry=True)
+        for i, o in zip(slow, again):
+            res[i] = o if o not in ("missing",) else res[i]
     outs, cost = [], []
     for o in res:
         m = re.search(r" @(\d+)$", o)
@@ -950,6 +960,8 @@ def phase_a(chk, workdir):
             ("(mod 1 (defun rec_20 () (if A22 (rec_20 (r )) 1)) (rec_20 ))", ("unused",)),
             ("(mod (include *standard-cl-23*) (defun fn_3 1) (defun fn_10 1 (fn_3)) fn_10)", ("cldb", "cf", "run")),
             ("(defun f (x) (f x))", ("repl",)),
+            # a constant call that fails at compile time inside a let body (cl23+): optimize_expr <-> codegen recursion
+            ("(mod (X2) (include *standard-cl-23*) (defun fn_5 (A6) (x A6)) (let ((V15 X2)) (fn_5 1)))", ("cf",)),
     ]:
         for ep in eps:
             if ep == "repl":
